@@ -994,6 +994,17 @@ func (b *Builder) V2Revise() bool {
 	dm := new(big.Int).Mul(m, big.NewInt(int64(rapid.IntRange(0, 1000).Draw(t, "v2revRisk"))))
 	dm.Quo(dm, big.NewInt(1000))
 	rev.MissedHostValue = cur(new(big.Int).Sub(m, dm))
+	if rapid.IntRange(0, 3).Draw(t, "v2revRefund") == 0 {
+		// the host refunds the renter instead: any part of what its valid output holds above the missed value
+		room := new(big.Int).Sub(ref.Big(cur0.HostOutput.Value), ref.Big(rev.MissedHostValue))
+		if room.Sign() > 0 {
+			back := new(big.Int).Mul(room, big.NewInt(int64(rapid.IntRange(1, 1000).Draw(t, "v2revBack"))))
+			back.Quo(back, big.NewInt(1000))
+			rev.RenterOutput.Value = cur(new(big.Int).Add(r, back))
+			rev.HostOutput.Value = cur(new(big.Int).Sub(ref.Big(cur0.HostOutput.Value), back))
+			b.label("v2-revise-host-refunds-renter")
+		}
+	}
 	if rapid.Bool().Draw(t, "v2revData") {
 		data, root := b.drawFile("v2rev")
 		rev.Filesize, rev.FileMerkleRoot = uint64(len(data)), root
